@@ -2112,3 +2112,26 @@ variant('t-quic-listener-logs-before-the-test', ['C04'], 'rsocket/transports/aio
         "                data = await self._incoming_bytes_queue.get()\n",
         "                data = await self._incoming_bytes_queue.get()\n                logger().debug('Quic - item dequeued')\n",
         kind='twin')
+
+# C03.g a short read is short of what that read asked for
+variant('b-metadata-tail-test-against-the-later-budget', ['C03'], 'rsocket/frame_fragmenter.py',
+        "            if len(metadata_fragment) < self._get_next_fragment_body_size():",
+        "            if len(metadata_fragment) < self.next_frame_header_size:", ('C03.g', 'FrameFragmenter.__iter__'))
+variant('t-metadata-read-size-in-a-local', ['C03'], 'rsocket/frame_fragmenter.py',
+        """            metadata_fragment = metadata_reader.read(self._get_next_fragment_body_size())
+            self._metadata_read_length += len(metadata_fragment)
+
+            if len(metadata_fragment) == 0:
+                last_metadata_fragment = b''
+                break
+
+            if len(metadata_fragment) < self._get_next_fragment_body_size():""",
+        """            wanted = self._get_next_fragment_body_size()
+            metadata_fragment = metadata_reader.read(wanted)
+            self._metadata_read_length += len(metadata_fragment)
+
+            if len(metadata_fragment) == 0:
+                last_metadata_fragment = b''
+                break
+
+            if len(metadata_fragment) < wanted:""", kind='twin')
